@@ -3,6 +3,7 @@ package c10
 import (
 	"errors"
 	"fmt"
+	"runtime"
 	"sort"
 	"strings"
 	"testing"
@@ -39,7 +40,7 @@ type SCase struct {
 	BHoldAt   int        `json:"b_hold_at"`  // B's traversal is held inside the block hook at this block index until "release" (0 = never)
 	BRoot     int        `json:"b_root"`
 	BWhole    bool       `json:"b_whole"` // B asks for the whole DAG below its root (else just the root node)
-	Ops       []string   `json:"ops"`     // acancel aunpause bnew bcancel release unstall wait adisc
+	Ops       []string   `json:"ops"`     // acancel aunpause anew bnew relbnew bcancel release unstall wait adisc
 	Retries   int        `json:"retries"`
 }
 
@@ -66,7 +67,7 @@ func genSame(t *rapid.T) SCase {
 	c.BRoot = rapid.IntRange(0, 20).Draw(t, "broot")
 	c.BWhole = rapid.Bool().Draw(t, "bwhole")
 	n := rapid.IntRange(2, 8).Draw(t, "nops")
-	switch rapid.IntRange(0, 7).Draw(t, "pattern") {
+	switch rapid.IntRange(0, 8).Draw(t, "pattern") {
 	case 0:
 		// A's response has run to its end, its messages are still held in the network; A cancels; B arrives
 		c.PauseAt, c.StallAt = 0, 0
@@ -78,6 +79,12 @@ func genSame(t *rapid.T) SCase {
 		c.PauseAt, c.StallAt, c.SendStall, c.SendFail = 1, 0, []int{0}, nil
 		c.BHoldAt, c.BWhole, c.BRoot = rapid.IntRange(1, 2).Draw(t, "bh"), true, len(c.DAG.Blocks)-1 // (the DAG's root is its last block)
 		c.Ops = append(c.Ops, "acancel", "bnew", "adisc", "release")
+	case 3:
+		// A's traversal is held in a hook; A cancels and sends the request again (a resume); the hook is
+		// released and B's request arrives right behind the end of A's first task
+		c.PauseAt, c.SendStall, c.SendFail = 0, nil, nil
+		c.StallAt = rapid.IntRange(1, 3).Draw(t, "st")
+		c.Ops = append(c.Ops, "acancel", "anew", rapid.SampledFrom([]string{"relbnew", "crelbnew", "crelbnew"}).Draw(t, "rel"), "wait")
 	case 1:
 		// A's response was paused and resumed, the resumed traversal is held in a hook; A cancels; B arrives
 		c.PauseAt = rapid.IntRange(1, 2).Draw(t, "p")
@@ -88,10 +95,12 @@ func genSame(t *rapid.T) SCase {
 		}
 	}
 	for i := 0; i < n; i++ {
-		c.Ops = append(c.Ops, rapid.SampledFrom([]string{"acancel", "aunpause", "bnew", "bnew", "bcancel", "release", "unstall", "wait", "adisc"}).Draw(t, "op"))
+		c.Ops = append(c.Ops, rapid.SampledFrom([]string{"acancel", "aunpause", "bnew", "bnew", "bcancel", "release", "unstall", "wait", "adisc", "relbnew", "crelbnew"}).Draw(t, "op"))
 	}
 	return c
 }
+
+var peerC = peer.ID("c10-third-requestor")
 
 type sameRes struct {
 	a, b       string // transcripts
@@ -189,6 +198,7 @@ func runSame(c SCase, b *dagen.Built, withA, withB bool) sameRes {
 		scen.ValidateAll(rs)
 		w.AddScripted(peerA)
 		w.AddScripted(peerB)
+		w.AddScripted(peerC)
 		rs.GS.RegisterOutgoingBlockHook(func(p peer.ID, rd graphsync.RequestData, bd graphsync.BlockData, ha graphsync.OutgoingBlockHookActions) {
 			if p == peerB && rd.ID() == id && c.BHoldAt > 0 && bd.Index() == int64(c.BHoldAt) && !released {
 				<-stall
@@ -235,7 +245,15 @@ func runSame(c SCase, b *dagen.Built, withA, withB bool) sameRes {
 		if withA {
 			send(peerA, gsmsg.NewRequest(id, b.Root, c.Sel.Node(), 0))
 		}
-		bSent := false
+		bSent, cSent := false, false
+		cID := reqID(7)
+		rs.GS.RegisterIncomingRequestHook(func(p peer.ID, rd graphsync.RequestData, ha graphsync.IncomingRequestHookActions) {
+			if p == peerC {
+				for k := 0; k < 400; k++ {
+					runtime.Gosched()
+				}
+			}
+		})
 		for _, op := range c.Ops {
 			switch op {
 			case "acancel":
@@ -246,6 +264,36 @@ func runSame(c SCase, b *dagen.Built, withA, withB bool) sameRes {
 				if withA {
 					send(peerA, gsmsg.NewUpdateRequest(id, graphsync.ExtensionData{Name: extUnpause, Data: basicnode.NewString("go")}))
 				}
+			case "anew":
+				// A sends its request again under the same id (what a requestor does when it resumes). Only the
+				// focused history uses it, before B has sent anything: a request sent again while the OTHER peer
+				// holds the id is ignored by design, which is not a difference to report
+				if withA {
+					send(peerA, gsmsg.NewRequest(id, b.Root, c.Sel.Node(), 0))
+				}
+			case "crelbnew":
+				// as relbnew, with the responder's loop kept busy meanwhile by a third peer's request whose
+				// request hook is slow (it yields): the end of A's task and B's request queue up behind it
+				if !cSent {
+					cSent = true
+					w.Net.Connect(peerC, scen.RespID)
+					if err := w.Net.Inject(peerC, scen.RespID, gsmsg.NewMessage(map[graphsync.RequestID]gsmsg.GraphSyncRequest{cID: gsmsg.NewRequest(cID, b.Root, (&dagen.Sel{K: "match"}).Node(), 0)}, nil, nil)); err != nil {
+						panic(err)
+					}
+					w.Net.Deliver(peerC, scen.RespID)
+				}
+				fallthrough
+			case "relbnew":
+				// the hook holding A's traversal is released and B's request arrives right behind the end of
+				// A's task, without the responder coming to rest in between
+				if !released {
+					released = true
+					close(stall)
+				}
+				for k := 0; k < 60; k++ {
+					runtime.Gosched()
+				}
+				fallthrough
 			case "bnew":
 				if withB && !bSent {
 					bSent = true
@@ -327,7 +375,7 @@ func judgeSame(c SCase) *pbt.Verdict {
 	}
 	hasB := false
 	for _, op := range c.Ops {
-		if op == "bnew" {
+		if op == "bnew" || op == "relbnew" || op == "crelbnew" {
 			hasB = true
 		}
 	}
@@ -373,6 +421,22 @@ func judgeSame(c SCase) *pbt.Verdict {
 	if aFaulty {
 		v.Label("A-has-network-faults")
 	}
+	// A cancelling and sending its request again while its first task is still held: whether that task
+	// notices the cancel or runs to its end first is decided inside one step, so the first run's part of
+	// the transcript is not comparable between two runs; what is comparable is how A's exchange ends
+	hasAnew := false
+	for _, op := range c.Ops {
+		if op == "anew" {
+			hasAnew = true
+		}
+	}
+	if hasAnew && !aFaulty {
+		v.Label("A-sends-its-request-again")
+		if lastLine(full.a) != lastLine(aOnly.a) || lastStatus(full.a) != lastStatus(aOnly.a) {
+			return v.Failf("peer A cancels and sends its request again: without B the exchange ends with %q and blocks %s; with B using the same id it ends with %q and blocks %s", lastStatus(aOnly.a), lastLine(aOnly.a), lastStatus(full.a), lastLine(full.a))
+		}
+		aFaulty = true // (the sequence comparisons below do not apply)
+	}
 	if !aFaulty && full.a != aOnly.a {
 		return v.Failf("what the responder sent to peer A differs when peer B uses the same request id:\n--- without B ---\n%s\n--- with B ---\n%s", aOnly.a, full.a)
 	}
@@ -406,4 +470,27 @@ var defSame = pbt.Def[SCase]{Name: "same-id-both-peers-act", Gen: genSame, Run: 
 func TestPropSameID(t *testing.T) {
 	outerT = t
 	pbt.Check(t, run, defSame, 4000, 200000)
+}
+
+func lastLine(t string) string {
+	l := strings.Split(t, "\n")
+	return l[len(l)-1]
+}
+
+// lastStatus is the last non-partial status in a transcript rendered by transcriptFor.
+func lastStatus(t string) string {
+	i := strings.LastIndex(t, "statuses=[")
+	if i < 0 {
+		return ""
+	}
+	rest := t[i+len("statuses=["):]
+	j := strings.Index(rest, "]")
+	if j < 0 {
+		return ""
+	}
+	f := strings.Fields(rest[:j])
+	if len(f) == 0 {
+		return ""
+	}
+	return f[len(f)-1]
 }
